@@ -274,6 +274,13 @@ def gen_cases(ctx):
         cases.append({"kind": "fromtensor", "par": list(par), "order": order, "dims": dims, "perm": perm,
                       "mode": mode, "op": rng.choice(["rand", "rand", "prod", "lowrank", "zero", "int"]),
                       "seed": rng.randrange(10 ** 9)})
+    # bonds whose operator Schmidt rank exceeds 100 (default caps of truncation parameters must not bite)
+    for mode in modes:
+        cases.append({"kind": "fromtensor", "par": [-1, 0], "order": [0, 1], "dims": [11, 11],
+                      "perm": rng.choice([[0, 1], [1, 0]]), "mode": mode, "op": "rand",
+                      "seed": rng.randrange(10 ** 9)})
+    cases.append({"kind": "fromtensor", "par": [-1, 0, 1, 2], "order": [0, 1, 2, 3], "dims": [4, 4, 4, 4],
+                  "perm": [0, 1, 2, 3], "mode": rng.choice(modes), "op": "rand", "seed": rng.randrange(10 ** 9)})
     # ---- (d) model builders
 
     def coupling():
